@@ -41,6 +41,14 @@ theorem rfc_table : Gen.Huffman.codes = Spec.Rfc7541.codes ∧ Gen.Huffman.lens 
     Gen.Huffman.eosCode = Spec.Rfc7541.eosCode ∧ Gen.Huffman.eosNBits = Spec.Rfc7541.eosLen := by
   decide +kernel
 
+/-- **T-fact on the lazy initialisation**: `getRootHuffmanNode` is exactly
+`buildRootOnce.Do(buildRootHuffmanNode); return lazyRootHuffmanNode` — the tree is reachable only
+after the `sync.Once` has completed, which is what makes the sequential model valid for concurrent
+first use (any fast path around the `Once` breaks this obligation). -/
+theorem root_init_once :
+    Gen.Huffman.rootInitBody = "buildRootOnce.Do(buildRootHuffmanNode); return lazyRootHuffmanNode" := by
+  decide
+
 /-- Every code fits its length; lengths are between 5 and 30 (so `AppendHuffmanString`'s
 "less than 32 valid bits can always accommodate another code" holds). -/
 theorem table_code_bounds (s : Nat) (h : s < 256) :
